@@ -27,7 +27,7 @@ ASSUMPTIONS = ["instances share state only through class attributes, module glob
 READONLY_METHODS = {"items", "values", "keys", "get", "copy", "index", "count", "format", "join", "encode", "decode", "startswith",
                     "endswith", "union", "intersection", "issubset", "__contains__", "__getitem__", "__len__", "__iter__"}
 IMMUTABLE_CTORS = {"tuple", "frozenset", "int", "str", "bytes", "float", "bool", "namedtuple", "TypeVar", "re.compile", "logging.getLogger",
-                   "getLogger", "attr", "attributes", "Controller", "Option", "property", "staticmethod", "classmethod", "field"}
+                   "getLogger", "Struct", "struct.Struct", "attr", "attributes", "Controller", "Option", "property", "staticmethod", "classmethod", "field"}
 META_OK = ("ModuleMeta",)
 MODULE_GLOBAL_WRITERS = {"MODULE_CLASSES": {"src/python/rv/modules/meta.py:ModuleMeta.__init_registry": "class registration at import"}}
 
